@@ -1251,6 +1251,23 @@ fn prologue(g: &mut Gen, variant: u64) {
             }
         }
     }
+    if variant % 11 == 7 && elems.len() >= 2 {
+        // names at the length limit of SHORT-NAME (127 / 128 characters) that collide when an element moves or is copied:
+        // make_unique_item_name appends `_1` (C07 known finding unique-name-exceeds-max-length on the unchanged tree;
+        // a name check at that point that fails AFTER the element was detached is a C03 / C11 violation)
+        let len = if variant % 2 == 0 { 127 } else { 128 };
+        let mut nm = vec![b'N'];
+        nm.extend(std::iter::repeat(b'a').take(len - 1));
+        let a = oknum(&g.push(Op::CreateNamed(elems[0], n.elidx("SYSTEM-SIGNAL"), nm.clone())));
+        let b = oknum(&g.push(Op::CreateNamed(elems[1], n.elidx("SYSTEM-SIGNAL"), nm.clone())));
+        if let (Some(_a), Some(b)) = (a, b) {
+            match (variant / 11) % 3 {
+                0 => { g.push(Op::Move(elems[0], b)); }
+                1 => { g.push(Op::Copy(elems[0], b)); }
+                _ => { g.push(Op::MoveAt(elems[0], b, 1)); }
+            }
+        }
+    }
     let r = g.push(Op::CreateNamed(elems[0], n.elidx("SYSTEM"), b"a".to_vec()));
     if let Some(sys) = r.strip_prefix("R OK h").and_then(|x| x.parse::<usize>().ok()) {
         let r = g.push(Op::CreateSub(sys, n.elidx("FIBEX-ELEMENTS")));
